@@ -45,6 +45,7 @@ def strategy_(draw, tier):
             "cwd": draw(st.sampled_from(["orig", "parent", "ancestor", "root", "arg", "arg_dir"])),
             "uid": draw(st.sampled_from([1000, 0])),
             "overwrite": draw(st.integers(0, 5)) == 0,
+            "batch": draw(st.sampled_from([0, 0, 1, 2])),
             "tree": draw(gen.entry_nodes("/E", "tree", ["/keep/t", "nowhere"])),
             "mode": draw(st.sampled_from([0o644, 0o600, 0o755, 0o400, 0o000])),
             "mt": draw(st.sampled_from([1, 946684800, 1234567890, 4102444800]))}
@@ -106,7 +107,10 @@ def run_case(case):
     td_opt = ["--trash-dir", root + "/my trash"] if case["tkind"] == "trash_dir" else []
     s0 = sandbox.snapshot()
     sigma = subtree(s0, e)
-    r = run("trash-put", td_opt + ["--", e])
+    batch = case.get("batch", 0)
+    mates = [others.pop(0) for _ in range(min(batch, 2))]
+    # (batch: the entry is one of several arguments of ONE trash-put invocation)
+    r = run("trash-put", td_opt + ["--"] + mates[:1] + [e] + mates[1:])
     put_date = gen.date_str(clock[0])
     s1 = sandbox.snapshot()
     if r.code != 0 or e in s1:
@@ -114,7 +118,7 @@ def run_case(case):
         return out
     # ---- history of other operations
     shape = []
-    trashed_others = []
+    trashed_others = list(mates)
     for h in case["hist"]:
         if h == "put_sibling" and others[:3]:
             o = others.pop(0)
@@ -222,7 +226,7 @@ def run_case(case):
             break
     pairs_left = sum(1 for p in s4 if any(p.startswith(t + "/info/") for t in tdirs))
     if pairs_left >= 1 or len(shape) >= 1:
-        out.key = [k, ncls, case["tkind"], case["sort"] or "default", cw, shape, case["rm_parent"]]
+        out.key = [k, ncls, case["tkind"], case["sort"] or "default", cw, shape, case["rm_parent"], batch]
         out.sample = {"entry": e, "kind": k, "tkind": case["tkind"], "history": shape,
                       "restore": sort + arg, "cwd": cwd, "index": idx}
     return out
